@@ -56,8 +56,35 @@ func (r *Result) Count(name string, n int64) {
 }
 func (r *Result) Failf(format string, a ...any) {
 	if r.Fail == "" {
-		r.Fail = fmt.Sprintf(format, a...)
+		r.Fail = squeeze(fmt.Sprintf(format, a...))
 	}
+}
+
+// squeeze shortens runs of one repeated character (keys of many kilobytes in messages).
+func squeeze(s string) string {
+	if len(s) < 2000 {
+		return s
+	}
+	var b strings.Builder
+	rs := []rune(s)
+	for i := 0; i < len(rs); {
+		j := i
+		for j < len(rs) && rs[j] == rs[i] {
+			j++
+		}
+		if j-i > 40 {
+			b.WriteString(string(rs[i : i+8]))
+			fmt.Fprintf(&b, "...(x%d)", j-i)
+		} else {
+			b.WriteString(string(rs[i:j]))
+		}
+		i = j
+	}
+	out := b.String()
+	if len(out) > 20000 {
+		out = out[:20000] + "...(message truncated)"
+	}
+	return out
 }
 func (r *Result) Logf(format string, a ...any) {
 	if len(r.Trace) < 4000 {
